@@ -530,11 +530,19 @@ def h_pace( ctx ):
     else:
         res.bad( src, ps, ps, 'the next record must be parsed from the same open file with the running line number, into the variables that are yielded' )
     tr = [ a for a in src.ancestors( ps ) if isinstance( a, ast.Try ) ]
-    if tr and any( dotted( h.type ) == 'StopIteration' and any( isinstance( b, ( ast.Break, ast.Return )) for b in h.body ) for h in tr[0].handlers ) \
-       and not any( h.type is None or dotted( h.type ) in ( 'Exception', 'BaseException' ) for h in tr[0].handlers ):
-        res.ok( src, tr[0], 'StopIteration ends this file; other parse failures propagate to the loader' )
+    if tr and any( dotted( h.type ) == 'StopIteration' and any( isinstance( b, ( ast.Break, ast.Return )) for b in h.body ) for h in tr[0].handlers ):
+        res.ok( src, tr[0], 'StopIteration ends this file (the loader switches to the next one)' )
     else:
         res.bad( src, tr[0] if tr else ps, 'end of file handling', 'end of file (StopIteration) must end the generator so that the loader switches to the next file' )
+    # a later record whose timestamp / serial cannot be parsed is reported as ( None, None ) and the file goes on (the loader skips such a
+    # record): the parse of a non-first record needs a handler for everything but StopIteration that does not end the generator
+    soft = [ h for h in ( tr[0].handlers if tr else [] ) if ( h.type is None or dotted( h.type ) in ( 'Exception', 'BaseException' ))
+             and not any( isinstance( b, ast.Raise ) for b in ast.walk( h )) ]
+    if soft:
+        res.ok( src, soft[0], 'an unparsable later record is reported and skipped' )
+    else:
+        res.bad( src, tr[0] if tr else ps, 'reader.open: a later record with an unparsable timestamp / serial ends the replay',
+                 'parse_record raises ( ValueError ... ), nothing in the pacing loop catches it, the generator dies and the loader goes FAILED: every record after the corrupt one - in this and all later files - is lost, although the corrupt record alone should be skipped' )
     return res
 
 
@@ -615,6 +623,18 @@ def h_load( ctx ):
         else:
             res.bad( src, r.stmt, 'guards of strict release: %s' % norm_text( ' and '.join( txt( c ) for c in conj )),
                      'strict may be released only when the timestamp increased strictly (ts > last accepted); otherwise a file holding one timestamp only is opened again and its records replayed twice' )
+    # ---- strict is released only by a record that also advances self._ts: a record that is skipped afterwards (corrupt payload, a note)
+    #      would leave _ts behind while the next, now non-strict, open( after, target=_ts ) selects this same file again - its records
+    #      would be delivered again and again
+    for r in rel:
+        adv = [ nd for nd in cfg.nodes if nd.kind == 'stmt' and pmatch( nd.stmt, 'self._ts = %s' % TS ) is not None ]
+        nxt = [ p_ for p_, l_ in cfg.pred[head] if l_ in ( 'back', 'continue' ) ]
+        esc = [ b_ for b_ in nxt if b_ in cfg.reachable( r, avoid=set( adv ), edge_ok=lambda x_, y_, l_: l_ != 'exc' and y_ is not head ) ]
+        if adv and not esc:
+            res.ok( src, r.stmt, 'the record that releases strict also advances self._ts before the next record is read' )
+        else:
+            res.bad( src, r.stmt, 'strict released by a record that may be skipped without advancing self._ts',
+                     'a record with a later timestamp but an unusable payload (corrupt JSON, a note) releases strict although _ts stays at the file\'s first record: the next open is non-strict with that target, selects the same file, and its first record is delivered again - endlessly' )
     # ---- acceptance: monotone timestamps; event + future appended together; _ts updated
     rets = [ s_ for s_ in ld.body if isinstance( s_, ast.Return ) and isinstance( s_.value, ast.Tuple ) and len( s_.value.elts ) == 2 ]
     if not rets or not isinstance( rets[-1].value.elts[1], ast.Name ):
